@@ -219,7 +219,7 @@ def dangling(site, K=1, fix=None):
         args = hole_args('n', 1, TBL)
     else:
         args = hole_args('n', K, WORD)
-    args = args + [('form', IntRange(0, 1))]
+    args = args + [('form', IntRange(0, 2 if site in ('ref_right_table', 'ref_left_table') else 1))]
 
     def build(a):
         n = text_of(a, 'n', 1 if site.endswith('_table') else K)
@@ -229,12 +229,20 @@ def dangling(site, K=1, fix=None):
             exists = n == 't' or n == 'u' or n == 'U'
             if a['form'] == 0:
                 inl = ' [ref: > ' + n + '.id]'
-            else:
+            elif a['form'] == 1:
                 tail = 'Ref: u.id > ' + n + '.id\n'
+            else:
+                # schema-qualified: no table lives in schema `hr`, whatever its bare name
+                tail = 'Ref: u.id > hr.' + n + '.id\n'
+                exists = None if (n == 'U' and region_active('c06_alias_ignores_schema')) else False
             kind = 'table'
         elif site == 'ref_left_table':
             exists = n == 't' or n == 'u' or n == 'U'
-            tail = ('Ref: ' + n + '.id < u.id\n') if a['form'] == 0 else ('Ref {\n  ' + n + '.id - u.id\n}\n')
+            if a['form'] == 2:
+                tail = 'Ref: hr.' + n + '.id < ' + n + '.id\n'      # same bare name on both sides, left one in a schema without tables
+                exists = None if ((n == 'U' and region_active('c06_alias_ignores_schema')) or not exists) else False
+            else:
+                tail = ('Ref: ' + n + '.id < u.id\n') if a['form'] == 0 else ('Ref {\n  ' + n + '.id - u.id\n}\n')
             kind = 'table'
         elif site == 'group_table':
             exists = n == 't' or n == 'u' or n == 'U'
